@@ -16,9 +16,23 @@ def write(prop, f, results, scratch, repo):
             if m.get('unit') == f['unit'] and m['item'] == f['item']:
                 meta = m
     doc = dict(property=prop, obligation=f['obligation'], detail=f.get('detail'), kind=f['kind'],
-               verifier='verus', verifier_message=f['message'], verifier_output=f['rendered'],
+               verifier=('kani/cbmc' if f.get('kind') == 'kani' else 'verus'), verifier_message=f['message'], verifier_output=f['rendered'],
                source=f.get('src'), at_exit=f.get('at_exit'), function=meta, failing_input=None)
     found = False
+    if f.get('cex'):
+        # the verifier's counterexample (CBMC via Kani), replayed against the real crate
+        try:
+            import kani_leg
+            rc, lines = kani_leg.replay_real(f['leg'], f['cex'], repo)
+            doc['failing_input'] = dict(kind='kani-counterexample', values={k: v for k, v in f['cex'].items()},
+                                        leg=f['leg']['id'], replay_exit=rc, replay_output=lines,
+                                        rerun='python3 vc/check.py %s --replay <this file>' % prop)
+            found = rc != 0
+        except Exception as e:
+            doc['replay_search_error'] = repr(e)
+        with open(path, 'w') as fh:
+            json.dump(doc, fh, indent=1)
+        return path, found
     try:
         import replay_search
         wit = replay_search.search(prop, f, scratch, repo)
@@ -40,5 +54,12 @@ def rerun(path, repo):
         print('no concrete input recorded (no-failing-input-found); verifier output follows')
         print(doc.get('verifier_output', ''))
         return 1
+    if wit.get('kind') == 'kani-counterexample':
+        import kani_leg
+        leg = [l for u in kani_leg.LEGS.values() for l in u if l['id'] == wit['leg']][0]
+        rc, lines = kani_leg.replay_real(leg, wit['values'], repo)
+        print('\n'.join(lines))
+        print('replay exit', rc, '(non-zero = the real code still violates the clause on this input)')
+        return 1 if rc != 0 else 0
     import replay_search
     return replay_search.rerun(wit, repo)
